@@ -166,7 +166,7 @@ def make_vec_interval(vec):
     """
     from ...characterisation.uncertainNumber import UncertainNumber as UN
 
-    assert len(vec) > 1, "Interval must have more than one element"
+    assert len(vec) >= 1, "Interval must have at least one element"
 
     if isinstance(vec, Interval):
         return vec
